@@ -77,8 +77,23 @@ func ApplyEdit(w *WS, s Step) string {
 		if w.Files[f] == nc {
 			nc += "!"
 		}
+		if w.Previous == nil {
+			w.Previous = map[string]string{}
+		}
+		w.Previous[f] = w.Files[f]
 		w.Files[f] = nc
 		return "edit " + f
+	case "restore-content":
+		if len(inputs) == 0 {
+			return ""
+		}
+		f := full(pickStr(inputs, s.F))
+		old, ok := w.Previous[f]
+		if !ok || old == w.Files[f] {
+			return ""
+		}
+		w.Files[f] = old
+		return "revert " + f
 	case "shift-boundary":
 		if len(inputs) < 2 {
 			return ""
